@@ -146,6 +146,21 @@ theorem free_clones_before_writing :
     RhpHost.free.writeRoots < RhpHost.free.verifySig := by
   decide
 
+/-- **a renewal or refresh carries the root list over unchanged**: the new contract (whose capacity
+is the old file size after a renew, the old capacity after a refresh — possibly larger than the
+file size) gets exactly the old contract's roots, so they hash to its Merkle root and their count is
+its file size from its first moment -/
+theorem renewal_carries_roots (h : Host) (hi : Inv h) (cid newcid : Nat) (c : Contract) (cs : CState)
+    (hc : h.contracts cid = some cs) (hok : renewOk h cid newcid c = true) :
+    ∃ cs', (stepOp h (.renew cid newcid c)).1.contracts newcid = some cs' ∧ cs'.c = c ∧ cs'.roots = cs.roots ∧
+      metaRoot cs'.roots = cs'.c.body.root ∧ cs'.roots.length = cs'.c.body.filesize ∧
+      cs'.c.body.filesize ≤ cs'.c.body.capacity := by
+  have hinv := stepOp_inv (.renew cid newcid c) hi
+  have hst : (stepOp h (.renew cid newcid c)).1.contracts newcid = some { c := c, roots := cs.roots, renewed := false } := by
+    simp only [stepOp, hok, if_true, hc, upd_same]
+  have ci := hinv newcid _ hst
+  exact ⟨_, hst, rfl, rfl, ci.root, ci.size, ci.cap⟩
+
 /-! ### listing and reading back -/
 
 /-- a successful sector-roots RPC returns exactly the requested window of the committed roots, the
